@@ -40,8 +40,14 @@ fn weighted_body_pairs_in_order() {
     let w2 = Weights::new(&[0.0, 1.0]).unwrap();
     let r2 = vs.weighted(&w2, sel);
     assert!(r2.parameters[0].0 == 5.0 && r2.parameters[0].1 == 2.0 && r2.msd == Some(0.25));
+    // a single voice: the fold has no further term; the result is that voice times its weight
+    let one = ShimSet(vec![par(3.0, 1.0, 0.5)]);
+    let w1 = Weights::new(&[1.0]).unwrap();
+    let r1 = one.weighted(&w1, sel);
+    assert!(r1.parameters.len() == 1 && r1.parameters[0].0 == 3.0 && r1.parameters[0].1 == 1.0 && r1.msd == Some(0.5));
     kani::cover!(true);
     std::mem::forget(vs);
+    std::mem::forget(one);
 }
 
 #[kani::proof]
